@@ -54,6 +54,7 @@ type CaseC18 struct {
 	Modifier  bool     `json:"modifier,omitempty"`
 	WholeChk  bool     `json:"wholechk,omitempty"`
 	StreamTls bool     `json:"streamtools,omitempty"` // tools are streamable-only
+	Exported  bool     `json:"exported,omitempty"`    // the agent is used as a node of a parent graph (ExportGraph and its options)
 }
 
 type run18 struct {
@@ -266,6 +267,7 @@ func genC18(t *rapid.T) CaseC18 {
 	}
 	c.Modifier = rapid.IntRange(0, 3).Draw(t, "modifier") == 0
 	c.StreamTls = rapid.IntRange(0, 3).Draw(t, "streamTools") == 0
+	c.Exported = rapid.IntRange(0, 3).Draw(t, "exported") == 0
 	return c
 }
 
@@ -380,6 +382,29 @@ func checkC18(c CaseC18) (*vkit.Failure, vkit.Meta) {
 		for _, s := range c.Input {
 			in = append(in, schema.UserMessage(s))
 		}
+		generate := func(ctx context.Context, in []*schema.Message) (*schema.Message, error) { return ag.Generate(ctx, in) }
+		stream := func(ctx context.Context, in []*schema.Message) (*schema.StreamReader[*schema.Message], error) {
+			return ag.Stream(ctx, in)
+		}
+		if c.Exported {
+			// the documented way to nest the agent: its graph and the options it was compiled with
+			sub, subOpts := ag.ExportGraph()
+			parent := compose.NewGraph[[]*schema.Message, *schema.Message]()
+			if err := parent.AddGraphNode("agent", sub, subOpts...); err != nil {
+				return vkit.Failf("harness", "AddGraphNode(ExportGraph): %v", err)
+			}
+			_ = parent.AddEdge(compose.START, "agent")
+			_ = parent.AddEdge("agent", compose.END)
+			pr, err := parent.Compile(ctx)
+			if err != nil {
+				return vkit.Failf("harness", "parent Compile: %v", err)
+			}
+			generate = func(ctx context.Context, in []*schema.Message) (*schema.Message, error) { return pr.Invoke(ctx, in) }
+			stream = func(ctx context.Context, in []*schema.Message) (*schema.StreamReader[*schema.Message], error) {
+				return pr.Stream(ctx, in)
+			}
+			m.Labels = append(m.Labels, "agent-exported-into-parent-graph")
+		}
 		multiCall, maxHit := false, false
 		for _, mode := range []string{"generate", "stream"} {
 			tag := mode
@@ -397,10 +422,10 @@ func checkC18(c CaseC18) (*vkit.Failure, vkit.Meta) {
 					}
 				}()
 				if mode == "generate" {
-					got, rerr = ag.Generate(rctx, in)
+					got, rerr = generate(rctx, in)
 					return
 				}
-				sr, err := ag.Stream(rctx, in)
+				sr, err := stream(rctx, in)
 				if err != nil {
 					rerr = err
 					return
